@@ -19,7 +19,7 @@ import solver  # noqa: E402
 import symex  # noqa: E402
 from symex import Adt, Scalar, Sym, Tokens, conj, disj, neg  # noqa: E402
 
-PROPS = ("C07", "C04", "C01", "C13", "C05", "C11", "C06", "C14", "C17", "C03", "C08", "C09", "C12", "C15", "C16", "C02")
+PROPS = ("C07", "C04", "C01", "C13", "C05", "C11", "C06", "C14", "C17", "C03", "C08", "C09", "C12", "C15", "C16", "C02", "C10")
 
 _LOADED = {}
 
@@ -298,7 +298,11 @@ def run(pid, tier, seed):
     log_dir = os.path.join(common.WORK_DIR, pid, "mirx-" + tier)
     os.makedirs(log_dir, exist_ok=True)
     import parse_props
-    if pid == "C11":
+    if pid == "C10":
+        say(f"[{pid}] E2-X: dumping the MIR of incan_syntax from {common.REPO}")
+        import lex_props
+        obs = lex_props.build(pid, tier, log_dir)
+    elif pid == "C11":
         say(f"[{pid}] E2-X: dumping the MIR of incan_syntax and incan from {common.REPO}")
         obs = parse_props.build(pid, tier, log_dir)
         P, R = load(log)
